@@ -89,6 +89,61 @@ def campaign(pid, tier, seed, model_cfg, sim_cfg, sim_num, sim_depth, scales, dr
             "wall": time.time() - t0, "walks": len(walks)}
 
 
+def cover_campaign(pid, seed, trace_cfg, jobs=8, drop_restore=False):
+    """every transition of the reachable state graph of MC_ZkAbacus_cover.cfg executed on the real code at least once"""
+    import graphcover, subprocess
+    d = os.path.join(WORK, f"{pid}_cover")
+    os.makedirs(d, exist_ok=True)
+    dot = os.path.join(d, "cover.dot")
+    r = tlc("MC_ZkAbacus", "MC_ZkAbacus_cover.cfg", workers=8, extra=["-dump", "dot,actionlabels", dot], name=f"dump_{pid}", timeout=3600)
+    if not r["ok"]:
+        raise ModelViolation("MC_ZkAbacus", "MC_ZkAbacus_cover.cfg", r)
+    runs, nedges = graphcover.scripts(dot, SCALE_BIG)
+    os.remove(dot)
+    parts = [[] for _ in range(jobs)]
+    for i, run in enumerate(runs):
+        lines = [l for l in run if not (drop_restore and l["act"] == "restore")]
+        parts[i % jobs] += lines
+    procs = []
+    for j, lines in enumerate(parts):
+        sp, tp = os.path.join(d, f"cover{j}.script.ndjson"), os.path.join(d, f"cover{j}.trace.ndjson")
+        write_script(sp, lines)
+        procs.append((subprocess.Popen([BIN, "proto", "--script", sp, "--out", tp, "--seed", str(seed + j)], stdout=subprocess.PIPE, stderr=subprocess.STDOUT, text=True), sp, tp, lines))
+    total = 0
+    classes = set()
+    for pr, sp, tp, lines in procs:
+        out, _ = pr.communicate(timeout=7200)
+        if pr.returncode != 0:
+            raise ToolError(f"harness proto (cover) exited {pr.returncode}:\n{out[-2000:]}")
+    # validate the traces (sequentially: each validation is linear and takes seconds)
+    for j, (pr, sp, tp, lines) in enumerate(procs):
+        v = validate_trace("Trace_ZkAbacus", trace_cfg, tp, name=f"trace_{pid}_cover{j}", timeout=3600)
+        if not v["accepted"]:
+            ne = v["next_event"]
+            if isinstance(ne, dict) and str(ne.get("out", "")).startswith("skip:"):
+                raise ToolError(f"driver/model mismatch (not a violation): first unmatched event is a skipped action: {ne}")
+            events = [json.loads(l) for l in open(tp)]
+            # cut the script down to the run that contains the rejected event
+            idx = v["matched"]
+            start = max(i for i in range(idx + 1) if events[i].get("ev") == "reset")
+            nres = sum(1 for e in events[:start + 1] if e.get("ev") == "reset")
+            cut, seen = [], 0
+            for l in lines:
+                if l["act"] == "reset":
+                    seen += 1
+                if seen == nres:
+                    cut.append(l)
+                elif seen > nres:
+                    break
+            raise Violation(pid, f"edge-cover run rejected by Trace_ZkAbacus at event {idx + 1} ({'invariant ' + str(v['violated']) if v['violated'] else 'no spec action explains it'})",
+                            {"kind": "proto", "property": pid, "seed": seed + j, "cfg": trace_cfg, "script": cut, "matched": idx, "rejected_event": ne,
+                             "note": "script cut to the run containing the rejected event; world seeds differ from the original run"})
+        cls, n, _ = classes_of_trace(tp)
+        total += n
+        classes |= cls
+    return {"edges": nedges, "runs": len(runs), "events": total, "classes": classes, "states": r["distinct"]}
+
+
 def evidence_from(pid, tier, seed, c, rule, assumptions, extra=None):
     cov = {"states": c["model"]["distinct"], "transitions": c["model"]["generated"],
            "traces_validated_against_impl": c["runs"],
@@ -114,11 +169,18 @@ def check_C03(tier, seed):
                  sim_num=10 if q else 60, sim_depth=45 if q else 70, scales=[SCALE_BIG],
                  drv_runs=6 if q else 40, drv_steps=70 if q else 120,
                  drv_kwargs=dict(w_fault=2.5, w_close=0.25, w_restore=0.0, w_replay=1.0, max_pays=4))
+    extra = {"checker_cmd": "tlc MC_ZkAbacus (invariants CanClose HeldSigsValid ClosedOnUnrevoked; properties RefusedIsInert ReleaseOnlyOnAccept FaultRefused ReplayRefused) + Trace_ZkAbacus on harness traces"}
+    if not q:
+        cc = cover_campaign("C03", seed, "Trace_ZkAbacus_notwin.cfg", drop_restore=True)
+        c["events"] += cc["events"]; c["classes"] |= cc["classes"]; c["runs"] += cc["runs"]; c["wall"] = c["wall"]
+        extra.update({"edge_cover": {"model": "MC_ZkAbacus_cover.cfg (1 channel, MaxBal 7 at the exact 64-bit scale, 6 initial pairs, amounts -7..7, 2 payments, 9 fault kinds, 4 wrong-revocation kinds)",
+                                     "abstract_states": cc["states"], "transitions_covered": cc["edges"], "runs": cc["runs"], "events_executed": cc["events"]},
+                      "exhaustive": True})
     return evidence_from("C03", tier, seed, c,
         "events = API calls executed on the real customer/merchant (script steps from TLC simulation walks of ZkAbacus.tla and from the weighted random driver, "
         "every fault kind at every reply point, closes from every stage) and accepted by TLC against Trace_ZkAbacus.tla with CanClose, RefusedIsInert, "
         "ReleaseOnlyOnAccept, ClosedOnUnrevoked evaluated at every event; distinct = (stage, event, fault/how, outcome) classes observed",
-        ASSUME, {"checker_cmd": "tlc MC_ZkAbacus (invariants CanClose HeldSigsValid ClosedOnUnrevoked; properties RefusedIsInert ReleaseOnlyOnAccept FaultRefused ReplayRefused) + Trace_ZkAbacus on harness traces"})
+        ASSUME, extra)
 
 
 def check_C04(tier, seed):
@@ -234,8 +296,14 @@ def check_C20(tier, seed):
                  drv_runs=6 if q else 40, drv_steps=70 if q else 120,
                  drv_kwargs=dict(w_fault=1.0, w_close=0.1, w_restore=2.0, w_replay=0.5, max_pays=4),
                  trace_cfg="Trace_ZkAbacus.cfg", drop_restore=False)
+    extra20 = {"checker_cmd": "tlc MC_ZkAbacus (property RestoreStutters) + Trace_ZkAbacus.cfg (Aspects={twin}) on harness traces"}
+    if not q:
+        cc = cover_campaign("C20", seed, "Trace_ZkAbacus.cfg", drop_restore=False)
+        c["events"] += cc["events"]; c["classes"] |= cc["classes"]; c["runs"] += cc["runs"]
+        extra20.update({"edge_cover": {"abstract_states": cc["states"], "transitions_covered": cc["edges"], "runs": cc["runs"], "events_executed": cc["events"],
+                                        "note": "every transition of MC_ZkAbacus_cover.cfg incl. Restore at every state, each customer call executed on a restored twin"}, "exhaustive": True})
     return evidence_from("C20", tier, seed, c,
         "every customer API call of every history is executed twice: on the never-stored object and on a twin restored from its bincode image with the same "
         "randomness; outcome, next stage image and emitted message must be byte-identical (event field twin), restore steps replace the live object by the "
         "restored one and the run continues; TLC validates with aspect \"twin\" on; distinct = (stage, event, how, outcome) classes",
-        ASSUME, {"checker_cmd": "tlc MC_ZkAbacus (property RestoreStutters) + Trace_ZkAbacus.cfg (Aspects={twin}) on harness traces"})
+        ASSUME, extra20)
